@@ -275,7 +275,7 @@ impl<'a> LatticeBuilder<'a> {
                     lemma_after_insert(la, *self.lattice, *self.matrix, dn, self.lattice.ends@[dn.end as int]@.last().total_cost, p);
                     lemma_inserted_push(lp, la, *self.lattice, done, dn);
                 }
-//@  before if !self #2
+//@  before // OOV
             let ghost cd = cand_dict(b0, p);
             let ghost bd = bits_dict(b0, p);
             proof {
